@@ -93,3 +93,7 @@ func envInt(name string, def int) int {
 	fmt.Sscan(v, &n)
 	return n
 }
+
+// shard0 is true in the first shard of a job: exhaustive sweeps and directed
+// regressions run there only, so that merged counts are not inflated.
+func shard0() bool { return envInt("VERIF_SHARD", 0) == 0 }
